@@ -45,13 +45,13 @@ no longer in a `finally` that encloses the failing phase, this proof no longer c
 theorem level2_preserves_state {ε β : Type} (compute : List (Obj G V) → Except ε β)
     (objs : List (Obj G V)) (h : ∀ o ∈ objs, o.pos.length = o.ori.length) :
     (runNow compute objs).1 = objs := by
-  have hfin : Gen.Exits.resetInFinally = true := by decide
+  have hfin : (Gen.Exits.resetInFinally && Gen.Exits.unprotectedSitesAfterTiling == 0) = true := by decide
   unfold runNow run
   simp only [hfin, if_true]
   split <;> exact zipWith_restore_tile _ _ objs h
 
 /-- no statement that can raise sits between the tiling and an unprotected restore -/
-theorem no_unprotected_exit : Gen.Exits.unprotectedSitesAfterTiling = 0 ∨ Gen.Exits.resetInFinally = true := by
+theorem no_unprotected_exit : Gen.Exits.unprotectedSitesAfterTiling = 0 ∧ Gen.Exits.resetInFinally = true := by
   decide
 
 /-- the paths are put back from the saved arrays, not re-derived from the tiled (re-normalised)
